@@ -21,7 +21,9 @@ LINES = [b"gemini://h/", b"gemini://h/a?b", b"gemini://[::1]/", b"http://h/", b"
          b"TITAN://h/f;size=1", b"titan://h/f;size=1_0", b"titan://h/f;size=+2", b"titan://h/f;size=3#x", b"titan:///f;size=1",
          # valid lines with multi-byte UTF-8 sequences (2, 3 and 4 bytes): a read boundary may fall inside any of them
          "gemini://h/caf\u00e9".encode(), "gemini://h/\u65e5\u672c\u8a9e?q=\u00fc".encode(), "gemini://h/\U0001f600/\u00e9\u00e8".encode(),
-         "titan://h/\u00fc\u00f1\u00ee;size=2".encode(), "gemini://h/\u00e9".encode() + b"\xc3", b"gemini://h/\xe6\x97"]
+         "titan://h/\u00fc\u00f1\u00ee;size=2".encode(), "gemini://h/\u00e9".encode() + b"\xc3", b"gemini://h/\xe6\x97",
+         # sizes spelled as floats: int() refuses every one of them; float() takes them and int(float(..)) fails in other ways
+         b"titan://h/f;size=inf", b"titan://h/f;size=1e999", b"titan://h/f;size=3.0", b"titan://h/f;size=nan"]
 
 
 def gen_resp(rnd):
